@@ -15,6 +15,10 @@ pub assume_specification [ <VfsPath as Clone>::clone ] (p: &VfsPath) -> (r: VfsP
 pub struct FileId(pub u32);
 pub assume_specification<'a, T: Copy> [Option::<&'a T>::copied] (o: Option<&'a T>) -> (r: Option<T>)
     ensures o is None ==> r is None, o is Some ==> r == Some(*o->Some_0);
+// std: Option::filter (a refactoring of file_for_path is likely to reach for it)
+pub assume_specification<T, P: FnOnce(&T) -> bool> [Option::<T>::filter] (o: Option<T>, p: P) -> (r: Option<T>)
+    requires o is Some ==> p.requires((&o->Some_0,)),
+    ensures o is None ==> r is None, o is Some ==> (r is None || r == o), o is Some && r is Some ==> p.ensures((&o->Some_0,), true), o is Some && r is None ==> p.ensures((&o->Some_0,), false);
 // derive(Hash, PartialEq, Eq) of the two key types is a lawful hash-table key model (assumed; vstd states the same for the primitive types)
 #[verifier::external_body]
 proof fn axiom_key_models() ensures vstd::std_specs::hash::obeys_key_model::<VfsPath>(), vstd::std_specs::hash::obeys_key_model::<FileId>() {}
